@@ -568,8 +568,113 @@ def _nm(v, N):
     return {N - 1: "n-1", N - 2: "n-2", 1 << 255: "2^255"}.get(v, str(v))
 
 
+def c13_15(ctx):
+    """The five tree generators of TapRootMultiSig evaluated for every 1 <= k <= n <= 5 and for no timelock / a locktime / a sequence, with
+    the two tap-script constructors and the tree constructors as recording stand-ins: single_leaf is the k-of-n script over all keys,
+    multi_leaf_tree holds exactly one k-of-k script per k-subset, musig_tree exactly one MuSig aggregate per k-subset (k >= 2), the two
+    composed trees hold the union of their parts -- every leaf with the timelock the generator was given.  A subset whose leaf is of another
+    kind, carries another timelock or is missing owns no leaf it can spend"""
+    import itertools
+    from sa.cells import Evaluator, Obj, Raised, Undecided
+    mod, _ = rl.get(ctx, "taproot:TapRootMultiSig.__init__")
+
+    def multi_init(o, points, k, locktime=None, sequence=None):
+        if locktime is not None and sequence is not None:
+            raise Raised("ValueError")
+        o.attrs.update({"kind": "k-of-n script", "pts": frozenset(p.attrs["i"] for p in points), "k": k, "lt": locktime, "seq": sequence})
+
+    def musig_init(o, points, locktime=None, sequence=None):
+        if locktime is not None and sequence is not None:
+            raise Raised("ValueError")
+        if len(points) < 2:
+            raise Raised("IndexError")
+        o.attrs.update({"kind": "MuSig aggregate", "pts": frozenset(p.attrs["i"] for p in points), "k": None, "lt": locktime, "seq": sequence, "point": Obj("pecc", "S256Point", {"i": -1})})
+
+    def leaf(o):
+        return Obj("taproot", "TapLeaf", {"s": o})
+
+    def flat(t):
+        if isinstance(t, Obj) and t.cls == "TapLeaf":
+            a = t.attrs["s"].attrs
+            return [(a["kind"], a["pts"], a["k"], a["lt"], a["seq"])]
+        if isinstance(t, Obj) and t.cls == "TapBranch":
+            return [x for kid in t.attrs["kids"] for x in flat(kid)]
+        raise Undecided("tree node %r" % (t,))
+    hooks = {("MultiSigTapScript", "__init__"): multi_init, ("MuSigTapScript", "__init__"): musig_init, ("TapScript", "tap_leaf"): leaf,
+             ("TapBranch", "combine"): lambda cls, leaves: Obj("taproot", "TapBranch", {"kids": list(leaves)}),
+             ("TapBranch", "__init__"): lambda o, left, right, *a, **k: o.attrs.update({"kids": [left, right]})}
+    ext = {"combinations": itertools.combinations}
+    gens = ["single_leaf", "multi_leaf_tree", "musig_tree", "musig_and_single_leaf_tree", "everything_tree"]
+    out = []
+    for g in gens:
+        spec = "taproot:TapRootMultiSig." + g
+        _, fn = rl.get(ctx, spec)
+        verdict, cells = None, 0
+        for n in range(1, 6):
+            for k in range(1, n + 1):
+                if "musig" in g or g == "everything_tree":
+                    if k < 2:
+                        continue   # a MuSig aggregate of one key is outside the property
+                for tl in ("none", "locktime", "sequence"):
+                    cells += 1
+                    lt = Obj("timelock", "Locktime", {"v": 500}) if tl == "locktime" else None
+                    sq = Obj("timelock", "Sequence", {"v": 7}) if tl == "sequence" else None
+                    pts = [Obj("pecc", "S256Point", {"i": i}) for i in range(n)]
+                    me = Obj("taproot", "TapRootMultiSig", {"n": n, "k": k, "points": pts, "default_internal_pubkey": Obj("pecc", "S256Point", {"i": -1})})
+                    kw = {}
+                    if lt is not None:
+                        kw["locktime"] = lt
+                    if sq is not None:
+                        kw["sequence"] = sq
+                    try:
+                        t = Evaluator(ctx.repo, method_hooks=hooks, externals=ext).call(spec, [], self_obj=me, kwargs=kw)
+                        got = sorted(flat(t), key=repr)
+                    except Raised as x:
+                        verdict = "%d-of-%d, timelock %s: raises %s" % (k, n, tl, x.name)
+                        break
+                    except Undecided as u:
+                        return out + [ctx.err(spec, "%s not evaluable for k=%d, n=%d: %s" % (g, k, n, u), fn, mod)]
+                    subsets = [frozenset(c) for c in itertools.combinations(range(n), k)]
+                    single = [("k-of-n script", frozenset(range(n)), k, lt, sq)]
+                    multi = [("k-of-n script", s_, k, lt, sq) for s_ in subsets]
+                    musig = [("MuSig aggregate", s_, None, lt, sq) for s_ in subsets]
+                    want = {"single_leaf": single, "multi_leaf_tree": multi, "musig_tree": musig, "musig_and_single_leaf_tree": single + musig,
+                            "everything_tree": single + multi + musig}[g]
+                    want = sorted(want, key=repr)
+                    if got != want:
+                        miss = [w for w in want if w not in got]
+                        extra = [x for x in got if x not in want]
+
+                        def show(l):
+                            return "%s of keys %s%s%s" % (l[0], sorted(l[1]), " (threshold %s)" % l[2] if l[2] is not None else "",
+                                                          ", locktime" if l[3] is not None else (", sequence" if l[4] is not None else ", no timelock"))
+                        verdict = "%d-of-%d, timelock %s: the tree %s" % (k, n, tl, "; ".join(
+                            (["lacks the %s" % show(miss[0])] if miss else []) + (["holds a %s instead" % show(extra[0])] if extra else []) or
+                            ["holds %d leaves where %d are expected" % (len(got), len(want))]))
+                        break
+                if verdict:
+                    break
+            if verdict:
+                break
+        ctx.count("cells", cells)
+        out.append(ctx.bad(spec, verdict + " -- that subset owns no leaf it can spend under the conditions the tree was generated for", fn, mod, key="tree-cells:" + g) if verdict else
+                   ctx.ok(spec, "%d (k, n, timelock) cells: exactly the expected leaves, each with the generator's timelock" % cells, fn, mod, key="tree-cells:" + g))
+    return out
+
+
+
+def c13_16(ctx):
+    """tapscript multisig finalisation (Tx.finalize_p2tr_multisig) evaluated over signer subsets × hash types × signature order × annex:
+    the witness is the leaf's own (rule shared with C06.25)"""
+    from rules.C06 import c06_25
+    return c06_25(ctx)
+
+
+
 OBLIGATIONS = [
     ("C13.14", "CELLS nonce domain", c13_14),
+    ("C13.15", "CELLS tree generators", c13_15),
+    ("C13.16", "CELLS tapscript witness", c13_16),
     ("C13.13", "SHARED", c13_13),
     ("C13.12", "SET-ORDER", c13_12),
     ("C13.11", "MEMO", c13_11),
